@@ -908,6 +908,36 @@ def run(prog: Program) -> Results:
                     f"{f.key}: `{norm(b)[:60]}` searches with the unformatted name of a path segment: for the quoted segment `\"a.b\"` the "
                     f"mapping's dotted-key fallback splits the raw text at the dot and walks `a` then `b` — `set '\"a.b\".c' 2` rewrites "
                     f"`a.b.c` instead of creating `\"a.b\"`")
+    # ------------------------------------------------------------ R-C12-11 one way from a path to its formatted segments
+    r11 = res.rule("R-C12-11", "one way from a path to its binding names: every element `_format_npath_segments` returns is "
+                   "`_format_attr_name(<segment>)` for a segment of `_parse_npath(<path>)` — no shortcut returns pieces of the raw "
+                   "text (keywords and names that need quotes would be written bare)", floor=1)
+    fs = prog.funcs.get("_format_npath_segments")
+    if fs is None:
+        res.unclass("_format_npath_segments vanished")
+    else:
+        from sa.seqbuild import SeqBuilder
+        res.analysed_functions.add(fs.key)
+        outs = SeqBuilder(fs.node).returned()
+        if not outs:
+            res.unclass("_format_npath_segments: how the returned list is put together was not recognised")
+        for o in outs or []:
+            for sg in o:
+                r11.instances += 1
+                elt = sg[3] if sg[0] == "each" else sg[1]
+                src = sg[1] if sg[0] == "each" else None
+                formatted = isinstance(elt, ast.Call) and callee(elt) == "_format_attr_name"
+                from_parser = src is None or (isinstance(src, ast.Call) and callee(src) == "_parse_npath") or (
+                    isinstance(src, ast.Name) and any(isinstance(d, ast.Assign) and norm(d.targets[0]) == src.id and isinstance(d.value, ast.Call)
+                                                      and callee(d.value) == "_parse_npath" for d in walk_no_nested(fs.node)))
+                ok = formatted and from_parser
+                r11.ob(ok, {"segment": sg[0], "from": norm(src)[:40] if src is not None else None, "element": norm(elt)[:40] if elt is not None else "<the item itself>"})
+                if not ok:
+                    res.add("R-C12-11", (fs.key, "segments returned without the name formatter"), fs.loc(src if src is not None else elt),
+                            f"_format_npath_segments returns {'the items of `' + norm(src)[:40] + '`' if src is not None else '`' + norm(elt)[:40] + '`'} "
+                            f"{'as they are' if elt is None else 'as `' + norm(elt)[:40] + '`'}: these names did not pass _parse_npath and "
+                            f"_format_attr_name, so a keyword (`if`, `with`, `let`…) or a name that needs quotes is looked up and written bare — "
+                            f"`set if 1` emits `{{ if = 1; }}`, which no longer parses, and `rm let` cannot find `\"let\"`")
     # ------------------------------------------------------------ R-C12-9 every name read from a file passes the splitter
     r9 = res.rule("R-C12-9", "every binding name read from a file is split by _split_attrpath (the one scanner that knows quotes and "
                   "interpolations); a bypass is taken only under `\".\" not in name`, not under a guess about the quotes", floor=1)
